@@ -246,6 +246,7 @@ Proof.
   - destruct (eusable g (idx w)); [|discriminate]. inversion Hs; subst g'. exact Hsame.
   - destruct (eusable g (idx w)); [|discriminate]. inversion Hs; subst g'. exact Hsame.
   - destruct (eusable g (idx w)); [|discriminate]. inversion Hs; subst g'. exact Hsame.
+  - destruct (eusable g (idx w) && _); [|discriminate]. inversion Hs; subst g'. exact Hsame.
   - inversion Hs; subst g'. exact Hsame.
 Qed.
 
